@@ -739,3 +739,24 @@ Definition res_ok (uris : pool) (u : nat) (r : nsres) : Prop :=
   end.
 Definition ncname (n : name) : Prop := ~ In 58%N n.
 Definition ncname_attr (a : rattr) : Prop := ncname (ra_pfx a) /\ ncname (ra_loc a) /\ ra_loc a <> [].
+Definition wf_attr (a : rattr) : Prop := ra_loc a <> [].
+Definition sp_tok_of (t : tok) : sp_tok :=
+  match t with TStart p _ a e => SpStart p (map sp_of a) e | TEnd => SpEnd | _ => SpOther end.
+Fixpoint dev_starts (evs : list dev) : list (nat * list xattr) :=
+  match evs with
+  | [] => []
+  | DStart u _ _ xs _ :: r => (u, xs) :: dev_starts r
+  | _ :: r => dev_starts r
+  end.
+Fixpoint toks_nested (ts : list tok) (depth : nat) : bool :=
+  match ts with
+  | [] => true
+  | TStart _ _ _ true :: r => toks_nested r depth
+  | TStart _ _ _ false :: r => toks_nested r (S depth)
+  | TEnd :: r => match depth with 0 => false | S d => toks_nested r d end
+  | _ :: r => toks_nested r depth
+  end.
+Definition toks_nc (ts : list tok) : Prop :=
+  Forall (fun t => match t with TStart _ _ a _ => Forall ncname_attr a | _ => True end) ts.
+Definition start_ok (uris : pool) (d : nat * list xattr) (r : nsres * list nsres) : Prop :=
+  res_ok uris (fst d) (fst r) /\ Forall2 (fun x k => res_ok uris (xa_uri x) k) (snd d) (snd r).
